@@ -82,6 +82,8 @@ def tpl_gather(size, cb, x1, x2, a2, x3, a3, rx, c1, b1, c2, b2, c3, b3, t1, t, 
                     act(it, nm, aa)
             w.ticks(t)
             it.until_closed()
+            if dord == 2:
+                it.lock()       # "no new requests, then drain": the pool is already locked when gather_and_close() is called
             it.gather_and_close(rx == 1)
             for c, b in ((c1, b1), (c2, b2), (c3, b3)):
                 w.settle()
@@ -137,11 +139,12 @@ def families(tier):
     P0 = None
     P = ["size", "cb", "x1", "x2", "a2", "x3", "a3", "rx", "c1", "b1", "c2", "b2", "c3", "b3", "t1", "t", "dord"]
     pre = ["size >= 1", "cb == 1 or cb == 3", "0 <= x1 < 4", "0 <= x2 <= %d" % NOPP, "a2 >= -1", "0 <= x3 <= %d" % NOPP, "a3 >= -1", "0 <= rx <= 1",
-           "0 <= c1 <= %d" % NOPC, "b1 >= 0", "0 <= c2 <= %d" % NOPC, "b2 >= 0", "0 <= c3 <= %d" % NOPC, "b3 >= 0", "t1 >= 0", "t >= 0", "0 <= dord <= 1"]
+           "0 <= c1 <= %d" % NOPC, "b1 >= 0", "0 <= c2 <= %d" % NOPC, "b2 >= 0", "0 <= c3 <= %d" % NOPC, "b3 >= 0", "t1 >= 0", "t >= 0", "0 <= dord <= 2"]
     if not thorough:
         pre += ["t1 >= 4", "size <= 2", "a2 <= 1",
                 "(dord == 0 and c2 == %d and b2 == 0 and c3 == %d and b3 == 0 and b1 <= 1) or "
-                "(dord == 1 and x1 == 2 and x2 == %d and rx == 0 and c1 == 0 and c2 == 0 and c3 == 0 and b1 <= 2 and b2 <= 2 and b3 <= 2)" % (NOPC, NOPC, NOPP),
+                "(dord == 1 and x1 == 2 and x2 == %d and rx == 0 and c1 == 0 and c2 == 0 and c3 == 0 and b1 <= 2 and b2 <= 2 and b3 <= 2) or "
+                "(dord == 2 and x2 == %d and c2 == %d and b2 == 0 and c3 == %d and b3 == 0 and b1 <= 1)" % (NOPC, NOPC, NOPP, NOPP, NOPC, NOPC),
                 "x3 == %d or (x2 <= 1 and 2 <= x3 <= 3) or (2 <= x2 <= 3 and x3 <= 1) or (x2 == 6 and x3 <= 1) or (x2 == 4 and x3 == 4)" % NOPP,
                 "a3 <= 1", "t == 0 or t >= 4", "rx == 0 or x2 >= 4"]
         parts = [p for p in parts_product(cb=(3,), x1=range(4), x2=range(NOPP + 1), rx=(0, 1))
@@ -152,9 +155,10 @@ def families(tier):
         parts = refine(parts, ["x2 == 4"], "x3", (4, NOPP))
         parts = [q for p in parts for q in ([p + ["a2 == %d" % v] for v in (-1, 0, 1)] if ("x2 == 4" in p and "x3 == 4" in p) else [p])]
         parts = [p + ["dord == 0"] for p in parts] + [["cb == 3", "x1 == 2", "x2 == %d" % NOPP, "rx == 0", "dord == 1", "b1 == %d" % b] for b in range(3)]
+        parts += [["cb == 3", "x1 == %d" % k, "x2 == %d" % NOPP, "rx == %d" % r, "dord == 2"] for k in range(4) for r in (0, 1)]
     else:
         # sized to finish inside the wall budget on 16 cores: a second completion step only with the gated callbacks (cb 3)
-        pre += ["t1 >= 4", "c3 == %d" % NOPC, "b3 == 0", "size <= 2", "b1 <= 1", "a2 <= 1", "b2 <= 1", "cb == 3 or c2 == %d" % NOPC,
+        pre += ["dord <= 1 or (x2 == %d and x3 == %d)" % (NOPP, NOPP), "t1 >= 4", "c3 == %d" % NOPC, "b3 == 0", "size <= 2", "b1 <= 1", "a2 <= 1", "b2 <= 1", "cb == 3 or c2 == %d" % NOPC,
                 "x3 == %d or (x2 <= 1 and 2 <= x3 <= 3) or (2 <= x2 <= 3 and x3 <= 1) or (x2 == 6 and x3 <= 1) or (x2 == 4 and x3 == 4)" % NOPP, "a3 <= 1", "t == 0 or t >= 4"]
         parts = [p + ["c1 == %d" % c] for p in parts_product(cb=(1, 3), x1=range(4), x2=range(NOPP + 1), rx=(0, 1)) for c in range(NOPC + 1)]
     return [Family(name="gather", fn="tpl_gather", params=P, pre=pre, parts=parts,
